@@ -1,5 +1,6 @@
 import SlipVerif.Lemmas.PrinterMain
 import SlipVerif.Lemmas.PrinterPretty
+import SlipVerif.Lemmas.Wire6
 /-
   C03 — printing then reading gives back an equal object of the same type; pretty printing changes
   only white space.
@@ -154,5 +155,23 @@ theorem pretty_only_whitespace (cfg : PCfg) (margin offset closes : Nat) (x : Ob
     (prettyPieces cfg margin offset closes x).map Piece.isSep = (flatPieces cfg x).map Piece.isSep ∧
     renderPieces (flatPieces cfg x) = printFlat cfg x :=
   pretty_pieces_spec cfg margin offset closes x
+
+/-- wire_roundtrip: a payload of at most `maxMessageSize` (1 MiB) bytes framed with the 6-digit
+    hexadecimal length header is given back unchanged by the reader of the wire, together with
+    whatever follows it on the stream. -/
+theorem wire_roundtrip (payload rest : List Nat) (h : payload.length ≤ SlipVerif.Wire6.maxMessageSize) :
+    SlipVerif.Wire6.unframe (SlipVerif.Wire6.frame payload).head ((SlipVerif.Wire6.frame payload).body ++ rest) =
+      some (payload, rest) := by
+  unfold SlipVerif.Wire6.unframe SlipVerif.Wire6.frame
+  have hm : SlipVerif.Wire6.maxMessageSize = 1048576 := rfl
+  simp only [SlipVerif.Wire6.header_length, if_true,
+    SlipVerif.Wire6.parseHex_header payload.length (by omega)]
+  have : payload.length ≤ SlipVerif.Wire6.maxMessageSize ∧ payload.length ≤ (payload ++ rest).length := by
+    constructor
+    · exact h
+    · simp
+  simp [this]
+
+example : SlipVerif.Wire6.header 255 = "0000FF".toList ∧ (255 : Nat) ≤ SlipVerif.Wire6.maxMessageSize := by decide
 
 end SlipVerif.Theorems.C03
